@@ -103,8 +103,8 @@ theorem build_good : (s : Step) → (a : Ty) → (v : Val) → goodStep a s = tr
       simp only [Step.toType, leaves, hm, Option.getD_some]
       exact h2 l
     | prim id b =>
-      simp only [hasType, Bool.and_eq_true, beq_iff_eq] at ht
-      simp [Ty.isUnion, ht.1] at hg
+      have := (isPrim_excludes (hasType_prim_isPrim ht)).1
+      simp [this] at hg
     | recd vs =>
       simp only [hasType, Bool.and_eq_true, Ty.isRecord] at ht
       simp only [Ty.isUnion] at hg
@@ -137,8 +137,8 @@ theorem build_good : (s : Step) → (a : Ty) → (v : Val) → goodStep a s = tr
             rw [leavesList_congr hg.2.symm 0 (Vals.ofList outs)]
             exact h2 0 l
         | prim id b =>
-          simp only [hasType, Bool.and_eq_true, beq_iff_eq] at ht
-          simp [Ty.inner?, ht.1] at hi
+          have := (isPrim_excludes (hasType_prim_isPrim ht)).2.1
+          simp [this] at hi
         | recd vs =>
           simp only [hasType, Bool.and_eq_true, Ty.isRecord] at ht
           simp only [Ty.inner?] at hi
@@ -171,8 +171,8 @@ theorem build_good : (s : Step) → (a : Ty) → (v : Val) → goodStep a s = tr
             rw [leavesList_congr hg.2.symm 0 (Vals.ofList outs)]
             exact h2 0 l
         | prim id b =>
-          simp only [hasType, Bool.and_eq_true, beq_iff_eq] at ht
-          simp [Ty.inner?, ht.1] at hi
+          have := (isPrim_excludes (hasType_prim_isPrim ht)).2.1
+          simp [this] at hi
         | recd vs =>
           simp only [hasType, Bool.and_eq_true, Ty.isRecord] at ht
           simp only [Ty.inner?] at hi
@@ -209,8 +209,8 @@ theorem build_good : (s : Step) → (a : Ty) → (v : Val) → goodStep a s = tr
           have := hcov i (get?_lt_length hi)
           exact ⟨i, by simpa using this, n, t, hi, hl⟩
     | prim id b =>
-      simp only [hasType, Bool.and_eq_true, beq_iff_eq] at ht
-      simp [Ty.isRecord, ht.1] at hra
+      have := (isPrim_excludes (hasType_prim_isPrim ht)).2.2
+      simp [this] at hra
     | list vs =>
       simp only [hasType, Ty.inner?] at ht
       simp only [Ty.isRecord] at hra
